@@ -135,6 +135,27 @@ class SwapModel:
         t = strip(t)
         return t[0] == "var" and (t[2] == self.roles.get(role) or self.alias.get(t[2], -1) == self.roles.get(role))
 
+    def reads_now(self, block, operand, role):
+        """The call operand reads the role variable itself at the call (through unnamed temporaries of the same block), not a named
+        copy of it taken earlier - the provenance of a loop variable has no time, a snapshot looks the same."""
+        from analysis.ir import op_place
+        fn = self.fn
+        want = self.roles.get(role)
+        pl = op_place(operand)
+        for _ in range(6):
+            if pl is None or pl.get("p"):
+                return False
+            l = pl["l"]
+            if l == want or self.alias.get(l) == want:
+                return True
+            if fn.locals[l].get("n") and not fn.locals[l].get("inl"):
+                return False       # a named local of the function itself: a copy taken at some other time
+            ds = [st for st in fn.blocks[block]["s"] if st["k"] == "=" and st["p"]["l"] == l and not st["p"].get("p")]
+            if len(ds) != 1 or "use" not in ds[0]["rv"]:
+                return False
+            pl = op_place(ds[0]["rv"]["use"])
+        return False
+
     def updates(self, role):
         """Non-initial definitions (those mentioning the variable itself or derived from the step)."""
         l = self.var(role)
